@@ -342,14 +342,14 @@ theorem evalExpr_blockE (cfg fuel b st) :
     evalExpr cfg (fuel + 1) (.blockE b) st = inScope (evalBlock cfg fuel b) st := by
   rw [evalExpr]
 
-theorem okGArms_mem : ∀ (arms : List (List Expr × Expr)), Frag.okGArms arms = true →
-    ∀ a ∈ arms, (∀ l ∈ a.1, Frag.litE l = true) ∧ Frag.okGE a.2 = true := by
+theorem okGArms_mem (fr : Bool) : ∀ (arms : List (List Expr × Expr)), Frag.okEArms fr arms = true →
+    ∀ a ∈ arms, (∀ l ∈ a.1, Frag.litE l = true) ∧ Frag.okE fr a.2 = true := by
   intro arms
   induction arms with
   | nil => intro _ a ha; simp at ha
   | cons x xs ih =>
     intro h a ha
-    simp only [Frag.okGArms, Bool.and_eq_true, List.all_eq_true] at h
+    simp only [Frag.okEArms, Bool.and_eq_true, List.all_eq_true] at h
     rcases List.mem_cons.mp ha with rfl | ha
     · exact ⟨h.1.1, h.1.2⟩
     · exact ih h.2 a ha
